@@ -229,19 +229,19 @@ Proof.
   pose proof (logged_jump_until (N.to_nat (cp_round cp - v_r (k_vot s0))) s0 (cp_round cp)) as L.
   set (s := jump_until _ s0 _) in *.
   destruct (negb _); [discriminate|].
-  assert (Hsame : forall r0, Ok (s, r0) = Ok (s', res) -> logged s0 s') by (intros r0 E; inversion E; subst; exact L).
+  assert (Hsame : forall r0, Ok (s0, r0) = Ok (s', res) -> logged s0 s') by (intros r0 E; inversion E; subst; apply logged_refl).
   destruct (negb (hd_ok hd)); [apply Hsame|].
   destruct (negb (hd_height hd =? k_init_h s) && _); [apply Hsame|].
   destruct (negb (valset_equal _ _ && _)); [apply Hsame|].
   destruct (negb (vs_ok (hd_next hd))); [apply Hsame|].
-  destruct (fold_left _ (cp_proofs cp) ([], true)) as [temp allv].
+  destruct (fold_left _ (signed_entries (cp_proofs cp)) ([], true)) as [temp allv].
   destruct (negb allv); [apply Hsame|].
+  destruct (pm_get temp (hd_hash hd)); [|apply Hsame].
+  unfold bind at 1. destruct (byz_majority _); [|discriminate].
+  destruct (_ <? _); [apply Hsame|].
   fold (MirrorAuth.replay_insert s hd (cp_round cp)).
   unfold bind at 1. destruct (MirrorAuth.replay_insert s hd (cp_round cp)) as [s1|] eqn:Hins; [|discriminate].
   assert (L1 : logged s0 s1) by (eapply logged_trans; [exact L|eapply logged_replay_insert; exact Hins]).
-  destruct (pm_get temp (hd_hash hd)); [|intros E; inversion E; subst; exact L1].
-  unfold bind at 1. destruct (byz_majority _); [|discriminate].
-  destruct (_ <? _); [intros E; inversion E; subst; exact L1|].
   unfold bind. destruct (check_voting_precommit_shift _) as [s3|] eqn:Hcv; [|discriminate].
   intros E; inversion E; subst.
   eapply logged_trans; [exact L1|]. eapply logged_trans; [|apply logged_check_voting; exact Hcv].
